@@ -175,6 +175,21 @@ impl Prop for C05 {
         out.push(Case { id: format!("{};n={}", cell, i), cell, input: json!({"stmts": stmts.iter().map(sj).collect::<Vec<_>>()}) });
       }
     }
+    // (2d) the op-assignment kernels are also callable by name: a call with an immutable variable must not change it
+    for (i, f) in ["math/add-assign", "math/sub-assign", "math/mul-assign", "math/div-assign"].iter().enumerate() {
+      for (kn, litv, rhs) in [("scalar", "5", "2"), ("matrix", "[1 2 3]", "2"), ("matrix-matrix", "[1 2 3]", "[4 5 6]")] {
+        for m in ["", "~"] {
+          let stmts = vec![
+            Stmt { src: format!("{}a := {}", m, litv), targets: vec!["a".into()], expect: "ok-or-err", what: "define".into() },
+            Stmt { src: format!("w := {}", rhs), targets: vec!["w".into()], expect: "ok-or-err", what: "define".into() },
+            Stmt { src: format!("r := {}(a, w)", f), targets: if m.is_empty() { vec!["r".into()] } else { vec!["r".into(), "a".into()] }, expect: "ok-or-err", what: "call-native-assign".into() },
+            Stmt { src: "v := 1".into(), targets: vec!["v".into()], expect: "ok-or-err", what: "define".into() },
+          ];
+          let cell = format!("nativecall;fn={};kind={};mutable={}", f, kn, !m.is_empty());
+          out.push(Case { id: format!("{};n={}", cell, i), cell, input: json!({"stmts": stmts.iter().map(sj).collect::<Vec<_>>()}) });
+        }
+      }
+    }
     // (3) random sessions (no alias-creating forms: composites only from constructs that are isolation-clean by themselves)
     let n = if tier == Tier::Quick { 600 } else { 8000 };
     for i in 0..n {
@@ -249,7 +264,7 @@ impl Prop for C05 {
             match snap.get(name) {
               None => return Outcome::violated("name-vanished", format!("{}: {} disappeared", ctx(), name)),
               Some(v) if v != val => {
-                let class = if what.starts_with("mutate-") && !last_alias.is_empty() { format!("bystander-changed:{}", last_alias) } else { "bystander-changed".to_string() };
+                let class = if what.starts_with("mutate-") && !last_alias.is_empty() { format!("bystander-changed:{}", last_alias) } else if what == "call-native-assign" { "bystander-changed:native-assign".to_string() } else { "bystander-changed".to_string() };
                 return Outcome::violated(&class, format!("{}: {} changed from {} to {}", ctx(), name, val.show(), v.show()));
               }
               _ => {}
